@@ -172,6 +172,15 @@ func runCase(e *env, rep *report, class string, index int, seed int64, j *journa
 				fmt.Sprintf("lint mode rejects a program that normal mode accepts: normal (%s) parsed it, lint returned %q", in.variants[normalParseOK].name, lintEx.res.Err.Error()), in.src, d)
 		}
 	}
+	if in.lintMustAccept && lintEx != nil && lintEx.res.Panic == nil && lintEx.res.Err != nil {
+		// a generated program is valid up to its switches: lint mode "never fails because switches ... are missing"
+		rep.violation(class, index, "lint-rejects-generated", fmt.Sprintf("lint mode rejects a generated program that is valid by construction: %q", lintEx.res.Err.Error()), in.src, optsDetails(lintEx.o))
+	}
+	if in.expectReject != "" && strings.HasPrefix(firstFam, "err:") {
+		rep.count("gen_rejections_foreseen", 1)
+	} else if in.expectReject != "" && firstFam == "ok" {
+		rep.harnessErr(fmt.Sprintf("generated program is accepted although a poryswitch has no matching case and no '_' (see C12): %q", head(in.src, 120)))
+	}
 	if in.expectAccept {
 		if firstFam == "ok" {
 			rep.count("corpus_accepted_full_env", 1)
@@ -483,9 +492,16 @@ func (rn *runner) isolated(class string, index int, why string) *report {
 				}
 			}
 			rep.violation(class, index, "fatal-crash", fmt.Sprintf("the process compiling this input died instead of returning output or an error: exit status %d, %s", oc.exitCode, what), src, details)
+		} else if oc.exitCode >= 0 && !strings.Contains(oc.stderr, "goroutine ") && !strings.Contains(oc.stderr, "panic:") && !strings.Contains(oc.stderr, "fatal error:") {
+			// the isolated child exited by itself (no signal) in the middle of the one compile call it was started
+			// for: something inside the library ended the process (os.Exit, log.Fatal) instead of returning
+			rep.violation(class, index, "fatal-exit", fmt.Sprintf("the process compiling this input exited with status %d inside the compile call instead of returning output or an error (stderr: %q)", oc.exitCode, tail(oc.stderr, 200)), src, details)
 		} else {
-			rn.inconclusive("isolated child for %s/%d died (exit %d) without poryscript frames on its stack: %s", class, index, oc.exitCode, tail(oc.stderr, 300))
+			rn.inconclusive("isolated child for %s/%d died (exit %d: signal or Go runtime crash) without poryscript frames on its stack: %s", class, index, oc.exitCode, tail(oc.stderr, 300))
 		}
+	case "badoutput":
+		// exit status 0 without a report: the process ended normally before the harness could print anything
+		rep.violation(class, index, "fatal-exit", "the process compiling this input exited with status 0 inside the compile call instead of returning output or an error", src, details)
 	case "watchdog", "timeout":
 		rep.violation(class, index, "hang-wallclock", fmt.Sprintf("compilation does not terminate promptly: a single compile call of this %d-byte input was still running after 60 s in an isolated process (first stopped by: %s)", len(src), why), src, details)
 	case "memlimit":
